@@ -496,7 +496,7 @@ func c02(r *Run) {
 	// R5
 	r.guardTable(w, "C02.R5", bb, []guardRow{
 		{Preds: []string{"(time.Time).UnixMilli(time.Now()) < ((chain.Rules).GetMinBlockGap(*) + p3.ExecutionBlock.StatelessBlock.Block.Tmstmp)"}, Sentinel: "chain.ErrTimestampTooEarly", Label: "min-block-gap"},
-		{Preds: []string{"0 == builtin.len(*blockTransactions*)", "(time.Time).UnixMilli(time.Now()) < ((chain.Rules).GetMinEmptyBlockGap(*) + p3.ExecutionBlock.StatelessBlock.Block.Tmstmp)"}, Sentinel: "chain.ErrNoTxs", Label: "min-empty-block-gap"},
+		{Preds: []string{"0 == builtin.len(alloc(blockTransactions))", "(time.Time).UnixMilli(time.Now()) < ((chain.Rules).GetMinEmptyBlockGap(*) + p3.ExecutionBlock.StatelessBlock.Block.Tmstmp)"}, Sentinel: "chain.ErrNoTxs", Label: "min-empty-block-gap"},
 	})
 }
 
